@@ -12,11 +12,17 @@ HARNESSES = [
     bounds='AGGRprint_init on one aggregate type: lower bound literal 0..99, upper bound in {literal 0..99, "?", non-literal reference (arbitrary pointer payload, result type unset/INTEGER/other), absent}, UNIQUE/OPTIONAL symbolic; second copy at other addresses',
     stubs=['fprintf: structured capture', 'EXPRto_string / ClassName: fixed text', 'Type_* globals: harness objects', 'shadow copy of include/express/*.h with Scope_.u as a struct (works around a CBMC simplifier bug on non-first union members read through a pointer; native replay uses the real headers)'],
     out_of_claim='run-time bounds (attribute references), nested aggregates, that the emitted C++ compiles'),
+] + [
+  H('entity_attr_t%d' % t, 'c', 'harness/C02/h_entattr.c', repo_srcs=['src/exp2cxx/classes_entity.c', 'src/exp2cxx/classes_attribute.c', 'src/exp2cxx/classes_misc.c', 'src/exp2cxx/class_strings.c'], defs={'ATYPE': t}, unwind=170, object_bits=11,
+    cflags=['-I/repo/src/exp2cxx', '-fno-builtin', '-include', '/verif/harness/C17/prelude_bufsiz.h'], shadow_scope=True, no_checks=True, models=['lib/cmodels/sprintf_null.c'], allow_undef=['SUBTYPEto_string', 'format_for_std_stringout', 'print_typechain'],
+    bounds='ENTITYincode_print on one entity with one attribute of %s: OPTIONAL, UNIQUE, derived, inverse, redeclared and ABSTRACT symbolic' % ('a defined type', 'entity type', 'a builtin type')[t],
+    stubs=['fprintf: structured capture (statement recognised by its format literal, string arguments by their first bytes)', 'EXPRto_string: attribute name text (attr or SELF\\\\sup.attr) / fixed text', 'format_for_stringout: fixed text', 'shadow express headers (Scope_.u as a struct)', 'BUFSIZ := 63 (prelude)', 'built-in pointer checks off (functional property; memory safety of these printers is not claimed)'],
+    out_of_claim='several attributes and their order, supertypes/subtypes lists, SUPERTYPE OF expressions, attributes of anonymous aggregate type (print_typechain), the class bodies (LIBstructor_print etc.), that the emitted C++ compiles') for t in (0, 1, 2)
 ]
 JOBS = 6
 MANIFEST = {
-  'level_text': 'Bounded model checking of the aggregate emission kernels of the C++ generator (AGGRprint_bound, AGGRprint_init): for every resolved bound (any literal value, "?", any non-literal with arbitrary pointer payload) the emitted dictionary initialiser carries the declared value under the right bound number, or the expression text -- never a number that is not in the schema; SetBound1/SetBound2 appear exactly for the bounds present, UniqueElements(LTrue) iff UNIQUE and OptionalElements(LTrue) iff OPTIONAL. Only these kernels are claimed; the rest of the dictionary emission (entities, attributes, enumerations, selects) is outside.',
-  'level_note': 'Trusted: CBMC, structured fprintf capture, hand-built type objects, shadow express headers (Scope_.u as a struct: work-around for a CBMC simplifier bug, see DESIGN.md section 1; native replay uses the real headers). Outside: ENTITYincode_print, attribute descriptors, enumerations, selects, run-time bounds, that the output compiles.',
-  'technique': 'CBMC bounded model checking of goto-cc-compiled classes_type.c (AGGRprint_bound, AGGRprint_init) with symbolic bound expressions and flags and structured output capture',
+  'level_text': 'Bounded model checking of emission kernels of the C++ generator. Entity registration (ENTITYincode_print): for an entity with one attribute of a defined, entity or builtin type and every combination of OPTIONAL, UNIQUE, derived, inverse, redeclared and ABSTRACT, exactly one attribute descriptor of the matching class is emitted with the declared name, optionality, uniqueness and attribute type, added to the right list, with initializer / inverted attribute / abstract statement exactly when declared. Aggregates (AGGRprint_bound, AGGRprint_init): for every resolved bound (any literal value, "?", any non-literal with arbitrary pointer payload) the emitted dictionary initialiser carries the declared value under the right bound number, or the expression text -- never a number that is not in the schema; SetBound1/SetBound2 appear exactly for the bounds present, UniqueElements(LTrue) iff UNIQUE and OptionalElements(LTrue) iff OPTIONAL. Only these kernels are claimed; the rest of the dictionary emission (attribute order, supertype lists, enumerations, selects, class bodies) is outside.',
+  'level_note': 'Trusted: CBMC, structured fprintf capture, hand-built type objects, shadow express headers (Scope_.u as a struct: work-around for a CBMC simplifier bug, see DESIGN.md section 1; native replay uses the real headers). Outside: several attributes per entity and their order, supertype/subtype lists, anonymous aggregate attribute types, enumerations, selects, run-time bounds, that the output compiles.',
+  'technique': 'CBMC bounded model checking of goto-cc-compiled classes_entity.c (ENTITYincode_print) and classes_type.c (AGGRprint_bound, AGGRprint_init) on hand-built schema objects with symbolic flags, kinds and bound expressions; structured output capture; native replay',
   'design_ref': 'DESIGN.md section 2, C02',
 }
